@@ -7,8 +7,7 @@ import (
 )
 
 var (
-	factor1   = MakeAmount(1, 0)
-	factor100 = MakeAmount(100, 0)
+	factor1 = MakeAmount(1, 0)
 )
 
 // Percentage wraps around the regular Amount handler to provide support
@@ -70,8 +69,9 @@ func PercentageFromString(str string) (Percentage, error) {
 // PercentageFromAmount provides the percentage value of the amount ensuring it
 // is correctly scaled.
 func PercentageFromAmount(a Amount) Percentage {
-	a2 := a.Rescale(a.exp + 2).Divide(factor100)
-	return Percentage{amount: a2}
+	// dividing by 100 only moves the decimal point: keep the digits as they
+	// are so that large values neither overflow nor lose precision.
+	return Percentage{amount: Amount{value: a.value, exp: a.exp + 2}}
 }
 
 // Value provides the percentage amount's value
@@ -104,11 +104,11 @@ func (p Percentage) Base() Amount {
 // Amount provides an amount for the percentage that has been rescaled
 // from the underlying value mainly to be used for formatting.
 func (p Percentage) Amount() Amount {
-	e := int64(p.amount.exp) - 2
-	if e < 0 {
-		e = 0
+	// multiplying by 100 only moves the decimal point
+	if p.amount.exp >= 2 {
+		return Amount{value: p.amount.value, exp: p.amount.exp - 2}
 	}
-	return p.amount.Multiply(factor100).Rescale(uint32(e))
+	return Amount{value: p.amount.value * intPow(10, 2-p.amount.exp), exp: 0}
 }
 
 // Rescale will rescale the percentage value to the provided exponent.
